@@ -513,3 +513,23 @@ def selftest(ctx: Ctx) -> int:
     selftest_expect_reject(ctx, "TraceCache", "TraceCache.cfg", good, bad, "c10")
     print("selftest C10 ok: corrupted GetKey argument / corrupted result are rejected")
     return 0
+
+
+def replay(ctx: Ctx, rec: dict) -> int:
+    """Re-execute a recorded history on the current tree and re-judge it with TraceCache."""
+    refdc.ensure_ntlm_users()
+    case = rec["case"]
+    evs = play(12345, tuple(case["now"]), case["hist"])
+    row = {"id": 0, "now": case["now"], "defrk": "rk1", "events": evs}
+    bad, _ = validate(ctx, "TraceCache", "TraceCache.cfg", [row], what="replay")
+    for e in evs:
+        print(json.dumps(e))
+    if bad:
+        print(f"VIOLATION property=C10 replay={REPLAY_PATH or '-'}")
+        print("  clause:", ",".join(bad[0]))
+        return 1
+    print("[C10] replayed history accepted on the current tree")
+    return 0
+
+
+REPLAY_PATH = ""
